@@ -740,7 +740,8 @@ class Element(object):
         if self.child_parser:
             kwargs['version'] = self.version
             kwargs['validation_level'] = self.validation_level
-            kwargs['encoding_chars'] = self.encoding_chars
+            if kwargs.get('encoding_chars') is None:
+                kwargs['encoding_chars'] = self.encoding_chars
             if 'references' not in kwargs:
                 kwargs['references'] = self.structure_by_name
 
@@ -1940,7 +1941,8 @@ class Group(Element):
         if ref['cls'] == Group:
             g = Group(child_name, validation_level=self.validation_level, version=self.version,
                       reference=ref['ref'])
-            g.value = text
+            # the new group is not attached yet: its text is written with the encoding chars of this element
+            g.parse_children(text, encoding_chars=self.encoding_chars)
             return g
         else:
             # Check that the value starts with the correct name of the segment.
@@ -1952,11 +1954,12 @@ class Group(Element):
             kwargs = {'encoding_chars': self.encoding_chars, 'reference': reference}
             return Element.parse_child(self, text, **kwargs)
 
-    def parse_children(self, text, find_groups=True, **kwargs):
+    def parse_children(self, text, find_groups=True, encoding_chars=None, **kwargs):
         try:
             kwargs = {'references': self.reference, 'find_groups': find_groups}
         except AttributeError:
             kwargs = {'references': None, 'find_groups': False}
+        kwargs['encoding_chars'] = encoding_chars
 
         children = super(Group, self).parse_children(text, **kwargs)
         self.children = children
